@@ -246,7 +246,11 @@ Inductive aop :=
 | RemoveData (h d : nat) (via_ws : bool)                             (* ws.remove_entity(data) | hole.remove_children(data) *)
 | RemovePG (h pg : nat) (via_ws : bool)
 | RemoveHole (h : nat) (via_ws : bool)                               (* ws.remove_entity(hole) | group.remove_children(hole) *)
-| Reopen.                                                            (* close, open, load every hole's children *)
+| Reopen                                                             (* close, open, load every hole's children *)
+| AddObjData (h name did : nat) (vals : list val)                    (* hole.add_data({name: {values, association: OBJECT}}): no depth table, no group *)
+| SaveHole (h : nat)                                                 (* workspace.save_entity(hole) of a stored hole *)
+| RemoveViaGroup (h d : nat)                                         (* group.remove_children(data of hole h): not a child of the group, ignored *)
+| SetText (h d : nat) (vals : list val).                             (* text_data.values = ...: TextData checks the length but does not pad *)
 
 Definition soft_or_hard (s : astate) (r : res astate) : ares :=
   match r with Ok s' => AOk s' | Err e => AHard e end.
@@ -398,6 +402,48 @@ Definition api_step (s : astate) (op : aop) : ares :=
         | _ => r
         end in
       AOk (mkst (st s) (map (fix_hole (recs s)) (recs s)) (objids s))
+  | AddObjData h name did vals =>
+      if negb (live_hole s h) then AHard Unsupported else
+      if Nat.ltb name 100 then AHard Unsupported else
+      if has_key name (keys_of s h) then ASoft ValueError s else
+      if negb (fresh s did) then AHard Unsupported else
+      (* parent setter: Property key; add_save_concatenated: record and rows; no property group, n_values is None *)
+      let recs1 := upd_rec h (fun r => set_props (a_props r ++ [(name, did)]) r) (recs s) ++ [mkrec did KData name [] []] in
+      soft_or_hard s (lput (with_recs s recs1) (Put name h did vals))
+  | SaveHole h =>
+      if negb (live_hole s h) then AHard Unsupported else
+      (* add_save_concatenated: the record is rewritten unchanged, the object id is already listed (kept), surveys and trace saved again *)
+      soft_or_hard s
+        (match lput s (match sfetch (st s) L_SURV h 0 with Some vs => Put L_SURV h 0 vs | None => Del L_SURV h 0 end) with
+         | Err e => Err e
+         | Ok s2 => lput s2 (Del L_TRACE h 0)
+         end)
+  | RemoveViaGroup h d =>
+      if negb (live_hole s h) then AHard Unsupported else
+      if negb (owns s h d) then AHard Unsupported else AOk s               (* `if child not in self._children: continue` *)
+  | SetText h d vals =>
+      if negb (live_hole s h) then AHard Unsupported else
+      if negb (owns s h d) then AHard Unsupported else
+      match find_rec d (recs s) with
+      | None => AHard Unsupported
+      | Some rd =>
+          let too_long :=                                                        (* values.size > self.n_values *)
+            match pg_of_data s h d with
+            | None => false
+            | Some pg => match depth_vals s h pg with
+                         | Some dv => Nat.ltb (length dv) (length vals)
+                         | None => false
+                         end
+            end in
+          if too_long then ASoft ValueError s else soft_or_hard s (lput s (Put (a_name rd) h d vals))
+      end
+  end.
+
+(* the state a run ends in, None when it crashed *)
+Fixpoint run_all (s : astate) (ops : list aop) : option astate :=
+  match ops with
+  | [] => Some s
+  | op :: r => match api_step s op with AOk s' | ASoft _ s' => run_all s' r | AHard _ => None end
   end.
 
 (* ---------------- comparison with an observed run ---------------- *)
@@ -447,6 +493,15 @@ Fixpoint check_run (s : astate) (ops : list aop) (obs : list oev) : bool :=
   end.
 
 Definition agree (ops : list aop) (obs : list oev) : bool := check_run init ops obs.
+
+(* group.copy(parent=other workspace) after `ops`, then `cops` on the COPY: the copy starts from the source's state and evolves
+   on its own; the source (re-read after every operation on the copy: `ssnaps`) stays what it was *)
+Definition agree_copy (ops : list aop) (obs : list oev) (cops : list aop) (cobs : list oev) (ssnaps : list snap) : bool :=
+  check_run init ops obs
+  && match run_all init ops with
+     | Some s => check_run s cops cobs && forallb (snap_ok s) ssnaps
+     | None => false
+     end.
 
 (* the model's own run, for replay files *)
 Fixpoint arun (s : astate) (ops : list aop) : list ares :=
